@@ -34,6 +34,6 @@ Theorem C05_toc_entries_refer_to_their_header_partial : forall fuel md wd main b
   Forall TocStr.entry_ok (lox_toc s) /\
   (forall i e, nth_error (lox_toc s) i = Some e -> lx_count e = S i /\ lx_ref e = (R "#s" ++ dec (S i))%list).
 Proof. intros fuel md wd main bs Hm H.
-  assert (Hm3 : md = 0%nat \/ md = 1%nat \/ md = 2%nat) by (destruct Hm as [-> | ->]; [left|right; left]; reflexivity).
-  destruct (FragH.C02_headers_balanced_modes fuel md wd main bs Hm3 H) as (_ & _ & _ & _ & A & B). split; [exact A|].
-  intros i e E. destruct (B i e E) as [B1 B2]. split; [exact B1|]. apply B2. destruct Hm as [-> | ->]; discriminate. Qed.
+  assert (Hm3 : (md <= 3)%nat) by (destruct Hm as [-> | ->]; repeat constructor).
+  destruct (FragH.C02_headers_balanced_modes fuel (R "xhtml") md wd main bs (or_introl eq_refl) Hm3 H) as (_ & _ & _ & _ & A & B). split; [exact A|].
+  intros i e E. destruct (B i e E) as [B1 B2]. split; [exact B1|]. apply B2. destruct Hm as [-> | ->]; repeat constructor. Qed.
